@@ -57,7 +57,12 @@ func genOpaqueDyn(rng *rand.Rand, depth int, withObject bool) rc.DynV {
 			}
 		}
 		b := 120
-		v := rc.GenValue(rng, t, rc.ValOpts{MaxLen: 4, MaxStr: 24, Budget: &b, DynDepth: 2, DynOpts: &inner})
+		vo := rc.ValOpts{MaxLen: 4, MaxStr: 24, Budget: &b, DynDepth: 2, DynOpts: &inner}
+		if rng.Intn(10) == 0 { // up to two long strings / buffers (4 KiB .. 70 KiB)
+			long := 2
+			vo.LongStr = &long
+		}
+		v := rc.GenValue(rng, t, vo)
 		return rc.DynV{T: t, V: fixDyn(rng, t, v)}
 	}
 }
